@@ -1663,7 +1663,7 @@ def wtdmig(f, dct):
 
 
 def _dmig_field(num):
-    """16 character field for a DMIG value"""
+    """16 character field for a DMIG (or default TABLED1) value"""
     s = f"{num:16.9E}"
     if len(s) > 16:
         # negative value with a three digit exponent
@@ -2021,6 +2021,10 @@ def wttabled1(f, tid, t, d, title=None, form="{:16.9E}{:16.9E}", tablestr="TABLE
     appear without trailing digits. For example, '{:8.2f}{:#8.0f}'
     would print like this: ' 12.34 123456.'.
 
+    With the default `form`, a negative value with a three digit
+    exponent is written with one digit less ('{:16.8E}') so that it
+    stays within its 16 character field.
+
     See also
     --------
     :func:`rdtabled1`
@@ -2058,6 +2062,12 @@ def wttabled1(f, tid, t, d, title=None, form="{:16.9E}{:16.9E}", tablestr="TABLE
     n = len(form.format(1, 1))
     if n != 16 and n != 32:
         raise ValueError(f"`form` produces a {n} length string. It must be 16 or 32.")
+    if form == "{:16.9E}{:16.9E}":
+        # default format: a negative value with a three digit exponent
+        # would be 17 characters; keep every value within its field
+        t = np.array([_dmig_field(v) for v in t], dtype=str)
+        d = np.array([_dmig_field(v) for v in d], dtype=str)
+        form = "{:s}{:s}"
     if title:
         f.write(f"$ {title:s}\n")
     if n == 32:
